@@ -3,3 +3,28 @@ pub open spec fn try_depth_of(t: Option<TryAttributes>) -> nat { match t { Some(
 pub open spec fn loop_try_depth_of(l: Option<LoopAttributes>) -> nat { match l { Some(a) => a.try_depth as nat, None => 0 } }
 /// n PopHandler instructions
 pub open spec fn pops(n: nat) -> Seq<Ev> { Seq::new(n, |i: int| Ev::Emit(SymbolicByteCode::PopHandler)) }
+
+// ---- if / while: jumps and labels (C01, and the shape the pipeline assumes: every jump forward to a label emitted later, Loop backward) ----------
+/// what an if statement emits with first fresh label n and try depth d, and the next fresh label afterwards
+pub open spec fn if_evs(i: If, n: int, d: nat) -> (Seq<Ev>, int) decreases i {
+  let head = seq![Ev::Expr(i.cond.id), Ev::Emit(SymbolicByteCode::JumpIfFalse(Label(n as u32))), Ev::BeginScope, Ev::Block(i.body.id, d), Ev::EndScope];
+  match i.else_ {
+    None => (head.push(Ev::Emit(SymbolicByteCode::Label(Label(n as u32)))), n + 1),
+    Some(Else::Block(b)) => (head + seq![Ev::Emit(SymbolicByteCode::Jump(Label((n + 1) as u32))), Ev::Emit(SymbolicByteCode::Label(Label(n as u32))),
+                                        Ev::BeginScope, Ev::Block(b.id, d), Ev::EndScope, Ev::Emit(SymbolicByteCode::Label(Label((n + 1) as u32)))], n + 2),
+    Some(Else::If(inner)) => {
+      let (rest, m) = if_evs(*inner, n + 2, d);
+      (head + seq![Ev::Emit(SymbolicByteCode::Jump(Label((n + 1) as u32))), Ev::Emit(SymbolicByteCode::Label(Label(n as u32)))] + rest + seq![Ev::Emit(SymbolicByteCode::Label(Label((n + 1) as u32)))], m)
+    },
+  }
+}
+
+pub open spec fn while_evs(cond: int, n: int, d: nat) -> Seq<Ev> {
+  let s = Label(n as u32); let e = Label((n + 1) as u32);
+  seq![Ev::Emit(SymbolicByteCode::Label(s)), Ev::Expr(cond), Ev::Emit(SymbolicByteCode::JumpIfFalse(e)), Ev::BeginScope, Ev::Body(d, d), Ev::EndScope, Ev::Emit(SymbolicByteCode::Loop(s)), Ev::Emit(SymbolicByteCode::Label(e))]
+}
+
+/// how many labels an if statement needs (2 per else-if level)
+pub open spec fn if_labels(i: If) -> nat decreases i {
+  match i.else_ { None => 1, Some(Else::Block(_)) => 2, Some(Else::If(inner)) => 2 + if_labels(*inner) }
+}
